@@ -17,6 +17,17 @@
 //!   min hopcroft <n> <k> <fin> <rows> <ids> => ok    ids = block_id(s) after Minimizer::refine()
 //!   min bpart <n> <script> => dump | PANIC
 //!   min part <n> <script> => dump | PANIC
+//!
+//! Literal comparison with the line-by-line model (lean/SmtModel/Model/Hopcroft.lean, FastSet.lean):
+//!   min hopcroft_blocks <n> <k> <fin> <rows> => [block_id(s)..]|[block 0];[block 1];..   | PANIC
+//!   min hopcroft_state <n> <k> <fin> <rows> => <state after new>#<state after refine>      | PANIC
+//!        state = M<blocks 1..>|P<pc 0>/<pc 1>/..|A[b:c:cls,..]|I[b:c:cls,..]   (parsed from
+//!        `impl Display for Minimizer`: main partition, pred_classes, active / inactive splitters)
+//!   min hopcroft_trace <n> <k> <fin> <rows> => <blocks 1..>#S<b>:<c>:<cls>|[pre]|<blocks 1..>#..  | PANIC
+//!        (parsed from what `refine_and_trace` prints on stdout, captured through a temporary file)
+//!   min minimize_literal <A> => <A'> | PANIC      aut_str after the real minimize()
+//!   min fastset <max> <script> => card|[iter()]|[C results]|[contains(x), x in 0..max] | PANIC
+//!        script = `-` or `;`-joined I<x> insert, R<x> remove, C<x> contains, Z reset
 
 use crate::fam_aut::{aut_str, gen_seq, mk_builder, shuffle, tiling, Op, Shape};
 use crate::rng::Rng;
@@ -24,7 +35,7 @@ use crate::trace::*;
 use aws_smt_strings::automata::Automaton;
 use aws_smt_strings::regular_expressions::{ReManager, RegLan};
 use aws_smt_strings::smt_strings::MAX_CHAR;
-use aws_smt_strings::verif_hooks::{BasePartition, Minimizer, Partition};
+use aws_smt_strings::verif_hooks::{BasePartition, FastSet, Minimizer, Partition};
 
 // ---------- minimize on automata ----------
 
@@ -45,6 +56,7 @@ fn run_minimize(t: &mut Trace, a: Automaton, tag: &str, again: bool) {
     if r == "PANIC" {
         t.count("minimize=PANIC");
         t.op(&format!("min minimize {} PANIC", tok), "ok", true);
+        t.op(&format!("min minimize_literal {}", tok), "PANIC", true);
         return;
     }
     let n2 = a.num_states();
@@ -54,6 +66,7 @@ fn run_minimize(t: &mut Trace, a: Automaton, tag: &str, again: bool) {
     let nf = a.num_final_states();
     t.count(if nf == 0 { "finals=none" } else if nf == n2 { "finals=all" } else { "finals=some" });
     t.op(&format!("min minimize {} {}", tok, r), "ok", true);
+    t.op(&format!("min minimize_literal {}", tok), &r, true);
     t.op(&format!("min minimize_num_states {}", tok), &n2.to_string(), true);
     t.op(&format!("min quotient_check {}", tok), "1", n2 < n);
     if again {
@@ -234,6 +247,243 @@ fn hopcroft_case(t: &mut Trace, n: usize, k: usize, rows: &[Vec<u32>], fin: &[bo
         "ok",
         true,
     );
+    hopcroft_literal(t, n, k, rows, fin);
+}
+
+// ---------- Hopcroft, literally ----------
+
+fn block_line(l: &str) -> String {
+    // `block[i]:  x y z`
+    let rest = l.splitn(2, "]:").nth(1).unwrap_or("");
+    let v: Vec<u32> = rest.split_whitespace().map(|x| x.parse().unwrap()).collect();
+    p_nats(&v)
+}
+
+fn splitter_line(l: &str) -> String {
+    // `  Splitter(b, c, cls, flag)`
+    let inner = l.trim().trim_start_matches("Splitter(").trim_end_matches(')');
+    let f: Vec<&str> = inner.split(", ").collect();
+    format!("{}:{}:{}", f[0], f[1], f[2])
+}
+
+/// canonical token of everything `impl Display for Minimizer` prints
+fn minimizer_state<D, F>(mz: &Minimizer<D, F>) -> String {
+    let text = format!("{}", mz);
+    let mut main: Vec<String> = Vec::new();
+    let mut pcs: Vec<Vec<String>> = Vec::new();
+    let mut act: Vec<String> = Vec::new();
+    let mut inact: Vec<String> = Vec::new();
+    let mut sec = 0; // 1 main, 2 pred class, 3 active, 4 inactive
+    for l in text.lines() {
+        if l == "main partition" {
+            sec = 1;
+        } else if l.starts_with("pred_class[") {
+            sec = 2;
+            pcs.push(Vec::new());
+        } else if l == "Active splitters" {
+            sec = 3;
+        } else if l == "Inactive splitters" {
+            sec = 4;
+        } else if l.starts_with("block[") {
+            if sec == 1 {
+                main.push(block_line(l));
+            } else {
+                pcs.last_mut().unwrap().push(block_line(l));
+            }
+        } else if l.trim_start().starts_with("Splitter(") {
+            if sec == 3 {
+                act.push(splitter_line(l));
+            } else {
+                inact.push(splitter_line(l));
+            }
+        }
+    }
+    let pcs_s: Vec<String> = pcs.iter().map(|b| b.join(";")).collect();
+    format!("M{}|P{}|A[{}]|I[{}]", main.join(";"), pcs_s.join("/"), act.join(","), inact.join(","))
+}
+
+extern "C" {
+    fn dup(fd: i32) -> i32;
+    fn dup2(oldfd: i32, newfd: i32) -> i32;
+    fn close(fd: i32) -> i32;
+}
+
+/// run `f` with file descriptor 1 redirected to a temporary file (opened once, reused);
+/// what it printed, or None if it panicked
+fn capture_stdout<F: FnOnce()>(f: F) -> Option<String> {
+    use std::io::{Read, Seek, SeekFrom, Write};
+    use std::os::unix::io::AsRawFd;
+    thread_local! {
+        static CAPTURE: std::cell::RefCell<Option<std::fs::File>> = std::cell::RefCell::new(None);
+    }
+    CAPTURE.with(|cell| {
+        let mut slot = cell.borrow_mut();
+        if slot.is_none() {
+            let dir = if std::path::Path::new("/dev/shm").is_dir() { std::path::PathBuf::from("/dev/shm") } else { std::env::temp_dir() };
+            let path = dir.join(format!("verif-harness-stdout-{}", std::process::id()));
+            let file = std::fs::OpenOptions::new().read(true).write(true).create(true).truncate(true).open(&path).expect("capture file");
+            let _ = std::fs::remove_file(&path); // stays open, disappears with the process
+            *slot = Some(file);
+        }
+        let file = slot.as_mut().unwrap();
+        file.set_len(0).unwrap();
+        file.seek(SeekFrom::Start(0)).unwrap();
+        std::io::stdout().flush().unwrap();
+        let saved = unsafe { dup(1) };
+        assert!(saved >= 0);
+        assert!(unsafe { dup2(file.as_raw_fd(), 1) } >= 0);
+        let r = std::panic::catch_unwind(std::panic::AssertUnwindSafe(f));
+        std::io::stdout().flush().unwrap();
+        assert!(unsafe { dup2(saved, 1) } >= 0);
+        unsafe { close(saved) };
+        file.seek(SeekFrom::Start(0)).unwrap();
+        let mut text = String::new();
+        file.read_to_string(&mut text).expect("read capture file");
+        match r {
+            Ok(()) => Some(text),
+            Err(_) => None,
+        }
+    })
+}
+
+/// canonical token of what `refine_and_trace` prints
+fn trace_token(text: &str) -> String {
+    let mut parts: Vec<String> = Vec::new();
+    let mut blocks: Vec<String> = Vec::new();
+    let mut head = String::new(); // `S..|[pre]|` of the current round, empty for the initial partition
+    let mut started = false;
+    for l in text.lines() {
+        if l == "Initial partition" {
+            started = true;
+        } else if l.starts_with("--- round") {
+            parts.push(format!("{}{}", head, blocks.join(";")));
+            blocks.clear();
+            head.clear();
+        } else if l.starts_with("Splitter(") {
+            head = format!("S{}|", splitter_line(l));
+        } else if l.starts_with("pre(") {
+            let inner = l.splitn(2, '{').nth(1).unwrap_or("").trim_end_matches('}');
+            let v: Vec<u32> = inner.split_whitespace().map(|x| x.parse().unwrap()).collect();
+            head.push_str(&p_nats(&v));
+            head.push('|');
+        } else if l.starts_with("block[") {
+            blocks.push(block_line(l));
+        }
+    }
+    if started {
+        parts.push(format!("{}{}", head, blocks.join(";")));
+    }
+    parts.join("#")
+}
+
+fn hopcroft_literal(t: &mut Trace, n: usize, k: usize, rows: &[Vec<u32>], fin: &[bool]) {
+    let rows_s: Vec<String> = rows.iter().map(|r| p_nats(r)).collect();
+    let rows_tok = if rows_s.is_empty() { "-".to_string() } else { rows_s.join(";") };
+    let args = format!("{} {} {} {}", n, k, p_list(fin, |b| p_bool(*b)), rows_tok);
+    let delta = |s: u32, c: u32| rows[s as usize][c as usize];
+    let is_final = |s: u32| fin[s as usize];
+    // the Partition returned by refine(), literally
+    let r = guarded(|| {
+        let mut mz = Minimizer::new(n as u32, k as u32, delta, is_final);
+        let p = mz.refine();
+        let ids: Vec<u32> = (0..n as u32).map(|s| p.block_id(s)).collect();
+        let blocks: Vec<String> = (0..p.num_blocks())
+            .map(|i| {
+                let v: Vec<u32> = p.block_elements(i).collect();
+                p_nats(&v)
+            })
+            .collect();
+        format!("{}|{}", p_nats(&ids), blocks.join(";"))
+    });
+    t.count(if r == "PANIC" { "hopcroft_blocks=PANIC" } else { "hopcroft_blocks=ok" });
+    t.op(&format!("min hopcroft_blocks {}", args), &r, true);
+    // the whole internal state after new() and after refine()
+    let mut splits = 0usize;
+    let r = guarded(|| {
+        let mut mz = Minimizer::new(n as u32, k as u32, delta, is_final);
+        let s0 = minimizer_state(&mz);
+        let nb = mz.refine().num_blocks() as usize;
+        splits = nb.saturating_sub(2);
+        let s1 = minimizer_state(&mz);
+        format!("{}#{}", s0, s1)
+    });
+    t.count(&format!("hopcroft_blocks_out={}", std::cmp::min(splits + 1, 12)));
+    t.op(&format!("min hopcroft_state {}", args), &r, true);
+    // the rounds of the loop
+    let mut out = None;
+    let r = guarded(|| {
+        let mut mz = Minimizer::new(n as u32, k as u32, delta, is_final);
+        out = capture_stdout(|| mz.refine_and_trace());
+        String::new()
+    });
+    let r = match (r.as_str(), out) {
+        ("PANIC", _) | (_, None) => "PANIC".to_string(),
+        (_, Some(text)) => trace_token(&text),
+    };
+    let rounds = r.matches('#').count();
+    t.count(&format!("hopcroft_rounds={}", std::cmp::min(rounds, 16)));
+    t.op(&format!("min hopcroft_trace {}", args), &r, rounds > 0);
+}
+
+// ---------- FastSet ----------
+
+#[derive(Clone)]
+enum FStep {
+    I(u32),
+    R(u32),
+    C(u32),
+    Z,
+}
+
+fn fscript_str(script: &[FStep]) -> String {
+    if script.is_empty() {
+        return "-".into();
+    }
+    script
+        .iter()
+        .map(|s| match s {
+            FStep::I(x) => format!("I{}", x),
+            FStep::R(x) => format!("R{}", x),
+            FStep::C(x) => format!("C{}", x),
+            FStep::Z => "Z".to_string(),
+        })
+        .collect::<Vec<_>>()
+        .join(";")
+}
+
+fn run_fastset(t: &mut Trace, max: u32, script: &[FStep]) {
+    let r = guarded(|| {
+        let mut set = FastSet::new(max);
+        let mut results: Vec<bool> = Vec::new();
+        for s in script {
+            match s {
+                FStep::I(x) => set.insert(*x),
+                FStep::R(x) => set.remove(*x),
+                FStep::C(x) => results.push(set.contains(*x)),
+                FStep::Z => set.reset(),
+            }
+        }
+        let it: Vec<u32> = set.iter().collect();
+        let all: Vec<bool> = (0..max).map(|x| set.contains(x)).collect();
+        format!("{}|{}|{}|{}", set.card(), p_nats(&it), p_list(&results, |b| p_bool(*b)), p_list(&all, |b| p_bool(*b)))
+    });
+    t.count(if r == "PANIC" { "fastset=PANIC" } else { "fastset=ok" });
+    t.op(&format!("min fastset {} {}", max, fscript_str(script)), &r, !script.is_empty());
+}
+
+fn gen_fscript(rng: &mut Rng, max: u32, wild: bool) -> Vec<FStep> {
+    let steps = rng.range(0, 14);
+    let mut v = Vec::new();
+    for _ in 0..steps {
+        let x = if max == 0 || (wild && rng.chance(1, 8)) { max + rng.below(2) as u32 } else { rng.below(max as u64) as u32 };
+        v.push(match rng.below(10) {
+            0..=4 => FStep::I(x),
+            5..=7 => FStep::R(x),
+            8 => FStep::C(x),
+            _ => FStep::Z,
+        });
+    }
+    v
 }
 
 fn run_hopcroft(t: &mut Trace, rng: &mut Rng) {
@@ -538,6 +788,22 @@ pub fn run(t: &mut Trace, rng: &mut Rng, thorough: bool) {
             None => t.count("gen=compile-over-bound"),
         }
     }
+    // literal ops only: corner cases of the hook the `hopcroft` op is not defined on
+    // (no letters: the splitter table stays empty and `has_active_splitter` indexes it; no states)
+    hopcroft_literal(t, 3, 0, &[vec![], vec![], vec![]], &[true, false, false]);
+    hopcroft_literal(t, 2, 0, &[vec![], vec![]], &[true, false]);
+    hopcroft_literal(t, 2, 0, &[vec![], vec![]], &[true, true]);
+    hopcroft_literal(t, 0, 1, &[], &[]);
+    // a transition out of range / a row too short: the closure panics
+    hopcroft_literal(t, 3, 1, &[vec![1], vec![3], vec![0]], &[true, false, false]);
+    hopcroft_literal(t, 3, 2, &[vec![1, 1], vec![2], vec![0, 0]], &[true, false, false]);
+    // all final / none final: no split in `new`, refine() loops over inactive splitters only
+    hopcroft_literal(t, 3, 1, &[vec![1], vec![2], vec![0]], &[true, true, true]);
+    hopcroft_literal(t, 3, 1, &[vec![1], vec![2], vec![0]], &[false, false, false]);
+    // the splitter's own block is split by itself (self_refine: must be done last)
+    hopcroft_literal(t, 4, 1, &[vec![1], vec![2], vec![3], vec![3]], &[false, false, false, true]);
+    hopcroft_literal(t, 6, 2, &[vec![1, 2], vec![3, 4], vec![4, 3], vec![5, 5], vec![5, 5], vec![5, 5]], &[false, false, false, false, false, true]);
+
     let n_h = if thorough { 20000 } else { 3000 };
     for _ in 0..n_h {
         run_hopcroft(t, rng);
@@ -553,5 +819,46 @@ pub fn run(t: &mut Trace, rng: &mut Rng, thorough: bool) {
             let s = gen_script(rng, n, true, wild);
             run_part(t, n, &s);
         }
+    }
+    // FastSet driven directly (appended after all other generation: earlier ops are unchanged)
+    run_fastset(t, 100, &[FStep::I(10), FStep::I(20), FStep::I(10), FStep::I(40), FStep::I(40), FStep::C(10), FStep::C(30), FStep::R(30), FStep::R(40), FStep::C(40), FStep::R(10), FStep::Z, FStep::C(20)]);
+    run_fastset(t, 0, &[]);
+    run_fastset(t, 0, &[FStep::Z]);
+    run_fastset(t, 0, &[FStep::C(0)]);
+    run_fastset(t, 3, &[FStep::I(0), FStep::I(1), FStep::I(2), FStep::R(0), FStep::I(0), FStep::R(2), FStep::R(1), FStep::R(0)]);
+    // more abstract DFAs for the literal ops only (appended: earlier ops are unchanged): mixed
+    // finality so that `new` splits, up to 24 states, sparse images so that pred classes are
+    // empty for some (block, letter) pairs and some blocks have no incoming transition
+    let n_hx = if thorough { 12000 } else { 2000 };
+    for _ in 0..n_hx {
+        let n = rng.range(2, 24) as usize;
+        let k = rng.range(1, 4) as usize;
+        let image = rng.range(1, n as u64) as usize; // transitions only into the first `image` states
+        let mode = rng.below(3);
+        let rows: Vec<Vec<u32>> = (0..n)
+            .map(|s| {
+                (0..k)
+                    .map(|c| match mode {
+                        0 => rng.below(image as u64) as u32,
+                        1 => ((s + c + 1) % n) as u32,                     // a permutation per letter
+                        _ => if rng.chance(1, 2) { s as u32 } else { rng.below(n as u64) as u32 },
+                    })
+                    .collect()
+            })
+            .collect();
+        let nfin = rng.range(1, n as u64 - 1) as usize;
+        let fin: Vec<bool> = match rng.below(3) {
+            0 => (0..n).map(|s| s < nfin).collect(),
+            1 => (0..n).map(|s| s % 3 == 0).collect(),
+            _ => (0..n).map(|_| rng.chance(1, 2)).collect(),
+        };
+        hopcroft_literal(t, n, k, &rows, &fin);
+    }
+    let n_f = if thorough { 40000 } else { 5000 };
+    for _ in 0..n_f {
+        let max = if rng.chance(1, 20) { 0 } else { rng.range(1, 10) as u32 };
+        let wild = rng.chance(1, 6);
+        let s = gen_fscript(rng, max, wild);
+        run_fastset(t, max, &s);
     }
 }
